@@ -26,6 +26,9 @@ class StmtMixin:
         if m is None:
             raise Unsupported(f'statement {type(st).__name__} at {fr.module.path}:{st.lineno}')
         try:
+            sh = self.hooks.get('stmt_hook')
+            if sh is not None and sh(self, st, fr):
+                return None
             return m(st, fr)
         except PyExc as e:
             if e.inst.where is None:
